@@ -156,7 +156,7 @@ ApplyPush(st, p, v) ==
      ELSE IF ~pos.ok \/ ~sorted.ok \/ ~sl.ok THEN Fail(st)
      ELSE LET s1 == PutOnly(st, p, Arr(newArr)) IN
           IF s1.err THEN s1
-          ELSE IF values = <<>> /\ ~hasPos /\ ~hasSort /\ ~hasSlice THEN s1
+          ELSE IF field # Missing /\ values = <<>> /\ ~hasPos /\ ~hasSort /\ ~hasSlice THEN s1     \* nothing changed; creating the (empty) array is a change
           ELSE IF field # Missing /\ ~hasSort /\ ~hasSlice /\ insertAt = Len(arr) THEN RecordEach(s1, p, values, insertAt, 1)
           ELSE Record(s1, p, Arr(newArr))
 
